@@ -129,13 +129,26 @@ def trial(scratch, scenario, n, r, res, imds):
     if scenario.startswith("local-key-") and scenario != "local-key-present":
         pre_bad = {ws.latched + ".key"}
     host_latched_at_start = ws.latched
-    tag = "t-%s-%s" % (scenario, "ctl" if not n else "%s%d" % (n[0], n[1]))
+    tag = "t-%s-%s" % (scenario, "ctl" if not n else "%s%d%s" % (n[0], n[1], "lie" if len(n) > 2 else ""))
     vdir = os.path.join(scratch, "standin")
-    inj = ["-e", "trace=" + S] + (["-e", "inject=%s:signal=KILL:when=%d" % (n[0], n[1])] if n else [])
+    lie = bool(n) and len(n) > 2 and n[2] == "lie"
+    if lie:
+        # a lost write: the k-th write reports success without writing anything (strace does not execute a syscall whose retval is injected)
+        inj = ["-e", "trace=" + S, "-e", "inject=write:retval=%d:when=%d" % (n[3], n[1])]
+    else:
+        inj = ["-e", "trace=" + S] + (["-e", "inject=%s:signal=KILL:when=%d" % (n[0], n[1])] if n else [])
     a = realagent.RealAgent(scratch, tag=tag, vdir=vdir, strace=inj, worker_threads=1)
-    killed = a.wait_exit(5 if n else 1.5)
-    if not killed:
+    if lie:
+        t_l = time.time()
+        while time.time() - t_l < 4 and not any(k == "attest" for _, k, _ in ws.log):
+            time.sleep(0.05)
+        time.sleep(0.2)
+        killed = False
         a.kill()
+    else:
+        killed = a.wait_exit(5 if n else 1.5)
+        if not killed:
+            a.kill()
     time.sleep(0.02)
     trace = []
     try:
@@ -152,11 +165,15 @@ def trial(scratch, scenario, n, r, res, imds):
             site = "%s:%s" % (lastw[1], lastw[3])
         seen = [k for _, k, _ in ws.log]
         phase = "after-attest" if any(k == "attest" for k in seen) else "after-acquire" if "issued" in seen else "after-status" if "status" in seen else "before-status"
+    if lie:
+        site, phase = "lost-write:key-tmp", "lost-write"
+        res["nontrivial"].append(common.sha([scenario, "lie", n[1]]))
     bump("kill_site:%s" % site)
     bump("kill_phase:%s:%s" % (scenario, phase))
     res["evaluations"] += 1
     wit = {"scenario": scenario, "when": n, "kill_site": site, "phase": phase, "host_log": [(k, d) for _, k, d in ws.log][-8:], "dir": sorted(os.listdir(KEY_DIR)) if os.path.isdir(KEY_DIR) else None}
-    files = check_key_files(ws, viol, wit, pre_bad)
+    # (a) is about crashes; after a lost write a never-attested key's file may legitimately be unreadable
+    files = check_key_files(ws, (lambda *_a: None) if lie else viol, wit, pre_bad)
     # (b) what the host regards as attested must be recoverable
     attested = [d.split()[0] for _, k, d in ws.log if k == "attest" and d.endswith(" ok")]
     for g in attested:
@@ -216,7 +233,8 @@ def trial(scratch, scenario, n, r, res, imds):
             viol("restart-requested-a-new-key-although-latched-key-was-stored", dict(wit, latched_before=latched_before, latched_after=ws.latched))
         else:
             bump("restart_reused_stored_key")
-    check_key_files(ws, viol, dict(wit, after="restart"), pre_bad)
+    if not lie:
+        check_key_files(ws, viol, dict(wit, after="restart"), pre_bad)
     if len(res["samples"]) < 3 and phase != "before-status":
         res["samples"].append(wit)
     ws.close()
@@ -302,7 +320,13 @@ def record(args, scratch):
         idx = [i for i, w_ in enumerate(mine) if "secure-channel/status" in w_[4]]
         first = idx[0] if idx else 0
         end = idx[1] if len(idx) > 1 else len(mine)
-        points = [[w_[1], w_[2], w_[3]] for w_ in mine[max(0, first - 6):end + 2]]
+        points = []
+        for w_ in mine[max(0, first - 6):end + 2]:
+            ln = None
+            mlen = re.search(r",\s*(\d+)\)\s*=", w_[4])
+            if w_[1] == "write" and mlen:
+                ln = int(mlen.group(1))
+            points.append([w_[1], w_[2], w_[3], ln])
         out[scenario] = {"points": points, "worker_syscalls_total": len(mine)}
     return {"zones": out}
 
@@ -329,6 +353,11 @@ def run(tier, rep):
             chosen = [p for i, p in enumerate(pts) if p[2].startswith(("key-", "keys-", "rename", "socket")) and (p[0] != "write" or i % 3 == 0) or i % 6 == 0]
         trials += [(sc, [p[0], p[1]]) for p in chosen]
         trials.append((sc, 0))   # control: no kill
+        lies = [p for p in pts if p[0] == "write" and p[2] == "key-tmp" and p[3]]
+        if sc == "fresh" or tier == "thorough":
+            for i, p in enumerate(lies):
+                if tier == "thorough" or i % 3 == 0 or p[3] >= 30:
+                    trials.append((sc, ["write", p[1], "lie", p[3]]))
     rep.coverage.pop("zones", None)
     faults = []
     F = [("status", {"kind": "status", "code": 500}), ("status", {"kind": "body", "body": "{oops"}), ("status", {"kind": "reset"}),
